@@ -180,6 +180,48 @@ def h_sky_contains_history(kind, m):
         m.require(f'{step}: sky membership equals the membership in the current pixel image', Iff(ans_sky, ans_pix))
 
 
+def h_real_wcs_roundtrip_executed(m):
+    """EXECUTED with a real astropy.wcs.WCS (no symbolic input; supplementary to the solver-decided cases, whose WCS is an opaque
+    stub): sky -> pixel -> sky returns the source region for centres in several frames, including non-default equinoxes, on an
+    image in another frame"""
+    from astropy.coordinates import SkyCoord, FK5, FK4
+    from astropy.wcs import WCS
+    import regions as R
+    w = WCS(naxis=2)
+    w.wcs.ctype = ['RA---TAN', 'DEC--TAN']
+    w.wcs.crval = [40.0, 30.0]
+    w.wcs.crpix = [300.0, 300.0]
+    w.wcs.cdelt = [-0.001, 0.001]
+    c_, s_ = np.cos(np.deg2rad(25.0)), np.sin(np.deg2rad(25.0))
+    w.wcs.pc = [[c_, -s_], [s_, c_]]
+    base = SkyCoord(40.05, 30.04, unit='deg', frame='icrs')
+    for nm, fr, tol in (('icrs', 'icrs', 1e-6), ('galactic', 'galactic', 1e-6), ('fk5 J1975', FK5(equinox='J1975'), 1e-6), ('fk5 J2000', 'fk5', 1e-6)):
+        c2 = base.transform_to(fr)
+        centre = SkyCoord(c2.spherical.lon, c2.spherical.lat, frame=c2.frame.replicate_without_data())
+        for reg in (R.CircleSkyRegion(centre, 12 * u.arcsec), R.EllipseSkyRegion(centre, 30 * u.arcsec, 12 * u.arcsec, angle=25 * u.deg),
+                    R.CircleAnnulusSkyRegion(centre, 5 * u.arcsec, 9 * u.arcsec)):
+            pix = reg.to_pixel(w)
+            back = pix.to_sky(w)
+            # the sky image is expressed in the frame of the image, so it is compared with the source through its pixel image
+            # (same region on the sky <=> same pixel region) and through the centre separation on the sky
+            again = back.to_pixel(w)
+            ok = type(back) is type(reg) and back.center.separation(reg.center).arcsec < 1e-4
+            ok = ok and abs(again.center.x - pix.center.x) < 1e-5 and abs(again.center.y - pix.center.y) < 1e-5
+            for p_ in pix._params:
+                a, b = getattr(pix, p_), getattr(again, p_)
+                if p_ == 'angle':
+                    ok = ok and abs(((b - a).to_value(u.deg) + 180) % 360 - 180) < 1e-4
+                elif isinstance(a, (int, float)):
+                    ok = ok and abs(b / a - 1) < tol
+            for p_ in reg._params:
+                a, b = getattr(reg, p_), getattr(back, p_)
+                if isinstance(a, u.Quantity) and p_ != 'angle':
+                    ok = ok and abs(b.to_value(a.unit) / a.value - 1) < tol
+            m.require(f'{type(reg).__name__} centred in {nm}: sky -> pixel -> sky returns the source region', ok)
+            second = reg.to_pixel(w).to_sky(w)
+            m.require(f'{type(reg).__name__} centred in {nm}: a second conversion gives the same result', second == back)
+
+
 def h_roundtrip_sky(kind, inc, m):
     """sky -> pixel -> sky with symbolic angular sizes"""
     import regions as R
@@ -235,6 +277,7 @@ def harnesses(tier):
         for au in ('rad', 'arcmin'):
             hs.append((f'pix-sky-pix/{k}/angle-unit={au}', P(h_roundtrip_pix, k, None, aunit=au)))
             hs.append((f'sky-contains/{k}/angle-unit={au}', P(h_sky_contains, k, None, aunit=au)))
+    hs.append(('real-wcs/sky-pixel-sky (executed)', h_real_wcs_roundtrip_executed))
     for k in ('circle', 'ellipse'):
         hs.append((f'sky-contains/{k}/history', P(h_sky_contains_history, k)))
     for k in ('circle', 'ellipse', 'rectangle', 'annulus-circle', 'annulus-ellipse', 'annulus-rectangle'):
@@ -255,7 +298,7 @@ META = {
                          'WCS': 'opaque invertible WCS: the probe displacement (hence local scale and north angle) is an arbitrary non-zero vector',
                          'polygon': 'triangle', 'compound': 'circle xor rectangle'},
                'thorough': {'include': ['absent', False, 0, True]}},
-    'outside_claim': ['the WCS itself (projection, celestial frames, distortion): astropy.wcs is C code and SkyCoord cannot hold symbols; what is '
+    'outside_claim': ['real astropy.wcs.WCS objects and celestial frames with attributes are used only by ONE EXECUTED case (real-wcs/sky-pixel-sky: an execution of the real library, not a solver verdict)', 'the WCS itself (projection, celestial frames, distortion): astropy.wcs is C code and SkyCoord cannot hold symbols; what is '
                       'verified is the arithmetic and bookkeeping of regions for EVERY local scale and orientation',
                       'the 1e-6 relative tolerance is implied by exact equality over the reals; float rounding is outside'],
     'stubs': ['OpaqueWCS (vf/wcsstub.py): pixel_to_world / world_to_pixel on labelled sky points; unknown sky points map to fresh symbolic pixels',
